@@ -115,12 +115,13 @@ void h_from_data(void) {
     size_t cap = nondet_size_t(), w = 0;
     __CPROVER_assume(cap <= CQV_MAXBUF);
     uint8_t *o = malloc(cap);
-    __CPROVER_assume(o != NULL);
     carquet_status_t st = carquet_bloom_filter_write(f, o, cap, &w);
-    __CPROVER_assert((st == CARQUET_OK) == (cap >= n), "write succeeds iff capacity suffices");
+    __CPROVER_assert((st == CARQUET_OK) == (o != NULL && cap >= n), "write succeeds iff capacity suffices");
     __CPROVER_assert(st != CARQUET_OK || w == n, "write reports the true length");
     carquet_bloom_filter_destroy(f);
+    free(o);
   }
+  free(d);
   CQV_CANARY("from_data harness end");
 }
 
